@@ -209,6 +209,7 @@ macro_rules! drive {
     };
     ($r:ident, $h:ident, $len:expr, $read:expr, $ns:expr, $skipmask:expr, $name:ident, $skip:expr, $rawmask:expr, $raw:expr) => {{
         let mut starts_seen = 0u32;
+        let mut last_name: Option<Vec<u8>> = None;
         loop {
             let pos_probe;
             let epos_probe;
@@ -237,10 +238,26 @@ macro_rules! drive {
                     }
                     $h.prev_pos = p2;
                 }
-                if let Ok(Event::Start(s)) = &res_owned {
-                    starts_seen += 1;
-                    if ($skipmask >> (starts_seen % 8)) & 1 == 1 {
-                        let name_owned = s.name().as_ref().to_vec();
+                // the skipping calls are legal after ANY event, not only after a Start: now and then one is
+                // made after a text / comment / end / ... event, with the name of the last start tag seen
+                let mut skip_with: Option<Vec<u8>> = None;
+                match &res_owned {
+                    Ok(Event::Start(s)) => {
+                        starts_seen += 1;
+                        last_name = Some(s.name().as_ref().to_vec());
+                        if ($skipmask >> (starts_seen % 8)) & 1 == 1 {
+                            skip_with = last_name.clone();
+                        }
+                    }
+                    Ok(Event::Eof) | Err(_) => {}
+                    Ok(_) => {
+                        if ($skipmask >> (($h.calls + 5) % 8)) & 1 == 1 && $h.calls % 3 == 1 && !$h.ended {
+                            skip_with = last_name.clone();
+                        }
+                    }
+                }
+                if let Some(name_owned) = skip_with {
+                    {
                         let $name = quick_xml::name::QName(&name_owned);
                         let r2: Result<(), Error> = $skip;
                         // a skip call is a read call too: same invariants; a syntax error or a
